@@ -153,7 +153,7 @@ def moving_pairs(ctx, asm):
     q, cases = [], []
     for fin in finals:
         for shrink in ((4, 8, 16) if ctx.quick() else (4, 8, 12, 16, 24)):
-            for form in range(4):
+            for form in range(6):
                 base = bases[(fin // 4 + shrink) % len(bases)]
                 k = shrink // 4
                 if form == 0:
@@ -162,8 +162,13 @@ def moving_pairs(ctx, asm):
                     head, val = 'li t0, %position(target, {})'.format(base), lambda L, b=base: L + b
                 elif form == 2:
                     head, val = 'lui t0, %hi(target)\naddi t0, t0, %lo(target)', lambda L: L
-                else:
+                elif form == 3:
                     head, val = 'li t0, target + 4', lambda L: L + 4
+                elif form == 4:
+                    # position-relative operand: both halves of the pair must be taken relative to the li itself (offset 0)
+                    head, val = 'li t0, %offset(target)', lambda L: L
+                else:
+                    head, val = 'li t0, %offset target', lambda L: L
                 body = 'li x5, 1\n' * k                     # each shrinks from 8 to 4 after `head` was expanded
                 used = 8 + 4 * k
                 gap = fin - used
